@@ -487,7 +487,8 @@ func rulesC13(w *World, r *Report) {
 
 	// ---------- R6: commands close what they open
 	r.Rule("C13.R6", "must-pass-through: in every cmd function reachable from an HTTP handler of the long-lived server process, from the success edge of each whispertool.Open/Create every return passes Close on the handle (direct or deferred) unless the handle itself is returned — a handle dropped there keeps its lock and blocks every later session on that file", 2)
-	ruleOneSessionPerRead(w, r, "C13.R6")
+	r.Rule("C13.R7", "a command or handler reads a file in one session: no cmd function opens the file named by its own parameters more than once on a path (two call sites in sequence, or one in a loop), directly or through cmd functions that reach whispertool.Open", 1)
+	ruleOneSessionPerRead(w, r, "C13.R7")
 	libOpen, libCreate := open, create
 	serverReach := map[*ssa.Function]bool{}
 	for _, h := range httpHandlers(w) {
